@@ -87,20 +87,33 @@ class Run:
         with open(path, "w") as f:
             json.dump(body, f, indent=1, ensure_ascii=False)
         self.violations.append((cls, path, msgs))
+        hist = getattr(self, "_history", None)
+        if hist:
+            with open(path[:-5] + ".history.json", "w") as f:
+                json.dump({"property": self.pid, "history": list(hist) + [case], "messages": msgs[:20],
+                           "note": "the violation may depend on the cases that ran before it in the same process; "
+                                   "they are replayed in order, the verdict is that of the last case"},
+                          f, indent=1, ensure_ascii=False)
 
     # ---- exploration helpers
-    def sweep(self, fn, cases, space=None, selftest=40, chunk=None):
-        """Run fn over every case (parallel, ordered).  fn(case)->result dict (see note_result)."""
+    def sweep(self, fn, cases, space=None, selftest=40, chunk=None, isolate=True):
+        """Run fn over every case (parallel, ordered).  fn(case)->result dict (see note_result).
+        isolate: each case runs in a forked child of a process that never ran the code under test."""
         cases = list(cases)
         n0 = self.cov["evaluations"]
-        results = common.pmap(fn, cases, chunk)
-        # determinism self-test: the first cases are executed a second time, in this (older) process
+        if chunk is None:
+            chunk = max(1, min(256, len(cases) // (common.NPROC * 8) or 1))
+        results = common.pmap(fn, cases, chunk, isolate=isolate)
+        # determinism self-test: the first cases are executed a second time, from this process
         for c, r in list(zip(cases, results))[:selftest]:
-            r2 = fn(c)
+            r2 = common.in_fork(fn, c) if isolate else fn(c)
             if (r.get("obs"), r.get("viol")) != (r2.get("obs"), r2.get("viol")):
                 raise HarnessFault(f"non-deterministic observation for case {json.dumps(c)[:400]}")
-        for c, r in zip(cases, results):
+        for n, (c, r) in enumerate(zip(cases, results)):
+            # the cases that ran before this one in the same (forked) child, should the violation depend on them
+            self._history = cases[(n // chunk) * chunk: n] if isolate else None
             self.note_result(c, r)
+        self._history = None
         for c in cases[:1] + cases[len(cases) // 2: len(cases) // 2 + 1]:
             self.sample(c)
         if space:
@@ -118,15 +131,20 @@ class Run:
         states, transitions, depth = 1, 0, 0
         while frontier and depth < max_depth:
             nxt = []
-            results = common.pmap(expand, frontier)
+            bchunk = max(1, min(32, len(frontier) // (common.NPROC * 4) or 1))
+            results = common.pmap(expand, frontier, bchunk, isolate=True)
             if depth == 0 and frontier:
                 again = expand(frontier[0])
                 if [(r.get("obs"), r.get("viol")) for r in again] != [(r.get("obs"), r.get("viol")) for r in results[0]]:
                     raise HarnessFault("non-deterministic expansion of the initial state")
-            for hist, succ in zip(frontier, results):
-                for r in succ:
+            for fn_, (hist, succ) in enumerate(zip(frontier, results)):
+                for rn, r in enumerate(succ):
                     transitions += 1
                     h2 = hist + [r["ev"]]
+                    # transitions executed before this one in the same forked child
+                    start = (fn_ // bchunk) * bchunk
+                    self._history = [frontier[i] + [x["ev"]] for i in range(start, fn_) for x in results[i]] + \
+                                    [hist + [x["ev"]] for x in succ[:rn]]
                     self.note_result(h2, r)
                     k = r.get("key")
                     if k is None:
@@ -139,6 +157,7 @@ class Run:
                     nxt.append(h2)
                     if cap and states >= cap:
                         break
+            self._history = None
             depth += 1
             if nxt:
                 self.sample(nxt[len(nxt) // 2])
@@ -161,6 +180,12 @@ class Run:
         confirmed = []
         for cls, path, msgs in self.violations:
             ok = confirm(self.pid, path)
+            if not ok and os.path.exists(path[:-5] + ".history.json"):
+                # not reproducible alone: replay it after the cases that preceded it in its process
+                path = path[:-5] + ".history.json"
+                ok = confirm(self.pid, path)
+                cls = cls + " [depends on earlier cases in the same process]"
+                self.vclasses[cls] = 1
             if not ok:
                 raise HarnessFault(f"violation did not reproduce in a fresh process: {path}")
             confirmed.append((cls, path, msgs))
@@ -225,7 +250,12 @@ def main(argv=None):
         if a.replay:
             with open(a.replay) as f:
                 body = json.load(f)
-            msgs = drv.replay(body["case"])
+            if "history" in body:
+                msgs = []
+                for c in body["history"]:
+                    msgs = drv.replay(c)
+            else:
+                msgs = drv.replay(body["case"])
             if msgs:
                 if not a.confirm:
                     for m in msgs:
